@@ -1276,7 +1276,11 @@ class EpeakFunctionEnergyProfile(
             # integration for log(energy) for hopefully better numerical stability
 
             tmp_e = np.linspace(np.log10(E1_i), np.log10(E2_i))
-            tmp_int = np.trapz(np.log(10) * self(10**tmp_e) * 10**tmp_e, tmp_e) 
+            # numpy.trapz was renamed to numpy.trapezoid (and removed in
+            # numpy 2).
+            trapezoid = getattr(np, 'trapezoid', None) or np.trapz
+            tmp_int = trapezoid(
+                np.log(10) * self(10**tmp_e) * 10**tmp_e, tmp_e)
 
             # make sure it is always positive (probably not an issue any more with np.trapz. 
             # used to be an issue using the spline integrate self.function.integrate)
